@@ -70,6 +70,7 @@ func (bucket *Bucket) Close(_ context.Context) {
 
 // _closeSqliteDB closes the underlying sqlite database and shuts down dcpFeeds. Must have a lock to call this function.
 func (bucket *Bucket) _closeSqliteDB() {
+	bucket.storeClosed.Store(true)
 	bucket.expManager.stop()
 	for _, c := range bucket.collections {
 		c.close()
@@ -363,6 +364,10 @@ func (bucket *Bucket) _scheduleExpiration() {
 }
 
 func (bucket *Bucket) doExpiration() {
+	if bucket.storeClosed.Load() {
+		// The timer fired just as the store was shut down; stopping a timer does not call back one that has already started.
+		return
+	}
 	bucket.expManager._clearNext()
 
 	debug("EXP: Running scheduled expiration...")
